@@ -78,6 +78,11 @@ def run(tier):
             lifting(chk, F, ty, n, body)
         # one nesting level deeper (total order up to MAX_ORDER): adequacy of the series for the extra orders
     nested(chk, F)
+    # both arms are built from + - * / between dual numbers and with float constants; for nested types the float forms act on the inner
+    # dual numbers in place (`self.re /= c`): every generated operator form is the truncated-algebra operation (rule set of C08)
+    from . import c08
+    for ty in TYPES:
+        c08.check_type(chk, F, ty, thorough=False)
     chk.floor("sph bodies", chk.analysed.get("sph bodies", 0), 30)
     return chk.finish()
 
